@@ -26,9 +26,12 @@ PROP = "C04"
 KEY_FOREIGN = "C04:foreign-override-interpolated"
 
 from gen.c04_docs import PALETTE, VAR_ORDER, gen_doc  # noqa: E402
+from gen.c04_updates import apply_to_document, gen_history  # noqa: E402
 
 
 # ----------------------------------------------------------------------------- lattice slice
+
+N_HIST_QUICK, N_HIST_THOROUGH, HIST_PER_JOB = 160, 1600, 10
 
 LATTICE_MODES = [("opt", ("resourceManager", "config", "backend")), ("opt", ("command", "environment")), ("var", "lv")]
 
@@ -224,49 +227,56 @@ def evaluate(case, w, scratch):
     witness = {"doc": case["doc"], "user": case.get("user"), "comp": list(comp_id), "platform": platform,
                "expected": {"status": status, "value": exp if status != "ok" else None},
                "observed": obs if ostatus == "raised" else None}
+    judge(w, witness, comp_id, platform, comp_dict, status, exp, info, ostatus, obs)
+    return status
+
+
+def judge(w, witness, comp_id, platform, comp_dict, status, exp, info, ostatus, obs, pre="", cnt=""):
+    """Compare the outcome of the real code (ostatus, obs) with the reference layering (status, exp).
+    `pre` is put in front of the description of a violation, `cnt` in front of the names of the
+    counters (the update slice keeps its own).  Returns True when the two agree."""
 
     def bad(what, key=None, extra=None):
         wt = dict(witness)
         if extra:
             wt.update(extra)
-        w.violation(what, wt, finding_key=key)
+        w.violation(pre + what, wt, finding_key=key)
+        return False
 
     if status == "undefined":
-        w.count("expect_undefined_error")
+        w.count(cnt + "expect_undefined_error")
         if ostatus == "ok":
-            bad("reference to undefined variable %r was not reported for %s on platform %s" % (exp, comp_id, platform),
-                extra={"observed_config": vlib.jsonable(obs)})
-        else:
-            w.count("undefined_reported_as_" + obs["class"])
-            if obs.get("variable") == exp:
-                w.count("undefined_same_variable_named")
-        return status
+            return bad("reference to undefined variable %r was not reported for %s on platform %s" % (
+                exp, comp_id, platform), extra={"observed_config": vlib.jsonable(obs)})
+        w.count(cnt + "undefined_reported_as_" + obs["class"])
+        if obs.get("variable") == exp:
+            w.count(cnt + "undefined_same_variable_named")
+        return True
 
     # expected a proper configuration
     if ostatus == "raised":
         q = foreign_override_label(obs.get("label"), platform, (comp_id[0], comp_id[1], comp_dict))
         if obs["class"] == "FlowIRVariableUnknown" and q is not None:
-            bad("resolving %s on platform %r raised %s: %s" % (comp_id, platform, obs["class"], obs["message"][:160]),
-                key=KEY_FOREIGN, extra={"foreign_platform": q})
-        else:
-            bad("resolving %s on platform %r raised %s (%s) although every reference is defined" % (
-                comp_id, platform, obs["class"], obs["message"][:160]))
-        return status
+            return bad("resolving %s on platform %r raised %s: %s" % (
+                comp_id, platform, obs["class"], obs["message"][:160]), key=KEY_FOREIGN, extra={"foreign_platform": q})
+        return bad("resolving %s on platform %r raised %s (%s) although every reference is defined" % (
+            comp_id, platform, obs["class"], obs["message"][:160]))
 
     # winners, for the evidence counters
-    for path, kind, _ in PALETTE:
-        wl = ref.winner(info["olayers"], path)
-        if wl:
-            w.count("option_winner_" + wl)
-            present, v = ref.get_path(exp["options"], path)
-            if present and v in (0, "", False, [], 0.0) and v is not None:
-                w.count("option_winner_is_falsy_value")
-    for name in exp["variables"]:
-        wl = None
-        for lname, content in info["vlayers"]:
-            if name in content:
-                wl = lname
-        w.count("variable_winner_" + wl)
+    if not cnt:
+        for path, kind, _ in PALETTE:
+            wl = ref.winner(info["olayers"], path)
+            if wl:
+                w.count("option_winner_" + wl)
+                present, v = ref.get_path(exp["options"], path)
+                if present and v in (0, "", False, [], 0.0) and v is not None:
+                    w.count("option_winner_is_falsy_value")
+        for name in exp["variables"]:
+            wl = None
+            for lname, content in info["vlayers"]:
+                if name in content:
+                    wl = lname
+            w.count("variable_winner_" + wl)
 
     expected_cfg = dict(exp["options"])
     observed_cfg = {k: obs.get(k, "<missing>") for k in expected_cfg}
@@ -274,25 +284,21 @@ def evaluate(case, w, scratch):
     if d:
         path, e, o = d
         wl = ref.winner(info["olayers"], path) or "builtin"
-        bad("option %s of %s on platform %r is %r, layering gives %r (from layer %s)" % (
+        return bad("option %s of %s on platform %r is %r, layering gives %r (from layer %s)" % (
             ".".join(map(str, path)), comp_id, platform, o, e, wl))
-        return status
     ev, ov = exp["variables"], obs.get("variables")
     if not isinstance(ov, dict) or set(ev) != set(ov):
-        bad("variables of %s on platform %r are %r, layering gives %r" % (
+        return bad("variables of %s on platform %r are %r, layering gives %r" % (
             comp_id, platform, sorted(ov) if isinstance(ov, dict) else ov, sorted(ev)))
-        return status
     for name in ev:
         if ev[name] != ov[name] or type(ev[name]) is not type(ov[name]):
             wl = [ln for ln, c in info["vlayers"] if name in c][-1]
-            bad("variable %s of %s on platform %r is %r, layering gives %r (from layer %s)" % (
+            return bad("variable %s of %s on platform %r is %r, layering gives %r (from layer %s)" % (
                 name, comp_id, platform, ov[name], ev[name], wl))
-            return status
     if obs.get("name") != comp_id[1] or obs.get("stage") != comp_id[0]:
-        bad("identity of %s changed to (%r, %r)" % (comp_id, obs.get("stage"), obs.get("name")))
-        return status
-    w.count("configurations_equal_to_reference")
-    return status
+        return bad("identity of %s changed to (%r, %r)" % (comp_id, obs.get("stage"), obs.get("name")))
+    w.count(cnt + "configurations_equal_to_reference")
+    return True
 
 
 def class_keys(case, status):
@@ -318,10 +324,166 @@ def class_keys(case, status):
     return out
 
 
+# ----------------------------------------------------------------------------- update slice
+
+def describe_step(step):
+    if step["op"] == "user":
+        return "applying the user variable file (FlowIRExperimentConfiguration(concrete=<the queried object>))"
+    k, n, v = step["kind"], step["name"], step["value"]
+    plat = repr(step.get("platform")) if step.get("explicit", True) else "None"
+    if k == "dg":
+        return "set_global_variable(%r, %r)" % (n, v)
+    if k == "ds":
+        if step.get("setter") == "set_stage_variable":
+            return "set_stage_variable(%d, %r, %r)" % (step["stage"], n, v)
+        return "set_platform_stage_variable(%d, %r, %r, platform='default')" % (step["stage"], n, v)
+    if k == "pg":
+        return "set_platform_global_variable(%r, %r, platform=%s)" % (n, v, plat)
+    if k == "ps":
+        return "set_platform_stage_variable(%d, %r, %r, platform=%s)" % (step["stage"], n, v, plat)
+    return "set_component_variable(%r, %r, %r)" % (tuple(step["comp"]), n, v)
+
+
+def apply_to_live(live, step):
+    k, n, v = step["kind"], step["name"], step["value"]
+    plat = step.get("platform") if step.get("explicit", True) else None
+    if k == "dg":
+        live.set_global_variable(n, v)
+    elif k == "ds":
+        if step.get("setter") == "set_stage_variable":
+            live.set_stage_variable(step["stage"], n, v)
+        else:
+            live.set_platform_stage_variable(step["stage"], n, v, platform="default")
+    elif k == "pg":
+        live.set_platform_global_variable(n, v, plat)
+    elif k == "ps":
+        live.set_platform_stage_variable(step["stage"], n, v, platform=plat)
+    else:
+        live.set_component_variable(tuple(step["comp"]), n, v)
+
+
+def section_relation(step, comp_id, platform):
+    """Which section an update wrote to, relative to the (component, platform) pair that is read."""
+    if step["op"] == "user":
+        return "user"
+    if step["kind"] == "comp":
+        return "component_own" if tuple(step["comp"]) == tuple(comp_id) else "component_other"
+    target = step.get("platform", "default") if step["kind"] in ("pg", "ps") else "default"
+    if target == platform:
+        return "section_of_read_platform"
+    if target == "default":
+        return "default_section_read_on_other_platform"
+    return "section_of_foreign_platform"
+
+
+def run_history(hist, w, scratch):
+    """One live FlowIRConcrete, queried and updated in turns; every query is judged against the
+    reference layering of the description as it stands at that moment (tracked by construction)."""
+    from experiment.model.frontends.flowir import FlowIRConcrete
+    import experiment.model.errors as errors
+    doc, user = fix_keys(hist["doc"], hist.get("user"))
+    steps = copy.deepcopy(hist["steps"])
+    tracked = copy.deepcopy(doc)
+    active = hist["active"]
+    live = FlowIRConcrete(copy.deepcopy(doc), active, None)
+    user_applied = None
+    previous = {}        # pair -> expected outcome at its previous query
+    since = {}           # pair -> updates since its previous query
+    last_update = None
+    queried = False
+    ok = True
+    for k, step in enumerate(steps):
+        if step["op"] == "user":
+            import yaml
+            import experiment.model.conf as conf
+            path = os.path.join(scratch, "variables-h.yaml")
+            with open(path, "w") as f:
+                yaml.safe_dump(user, f)
+            cfg = conf.FlowIRExperimentConfiguration(
+                path=None, platform=active, variable_files=[path], system_vars=None, is_instance=False,
+                createInstanceFiles=False, primitive=True, concrete=live, updateInstanceFiles=False,
+                variable_substitute=True, manifest=None, validate=False)
+            live = cfg.get_flowir_concrete(return_copy=False)
+            user_applied = user
+            w.count("update_user_file_applied_to_queried_object" if queried else "update_user_file_applied_first")
+        elif step["op"] == "set":
+            try:
+                apply_to_live(live, step)
+            except Exception as e:  # the update was refused: the description is unchanged
+                w.count("update_ops_raised_" + type(e).__name__)
+                continue
+            apply_to_document(tracked, step)
+            w.count("update_ops_applied")
+            w.count("update_ops_" + step["kind"])
+        if step["op"] != "read":
+            last_update = (k, step)
+            for key in previous:
+                since.setdefault(key, []).append(step)
+            continue
+
+        for pr in step["pairs"]:
+            comp_id, platform = tuple(pr["comp"]), pr["platform"]
+            key = (comp_id, platform)
+            comp_dict = [c for c in tracked["components"] if (c["stage"], c["name"]) == comp_id][0]
+            (status, exp), info = ref.resolve(tracked, comp_id, platform, builtin_defaults(), user_applied)
+            try:
+                got = live.get_component_configuration(comp_id, raw=False, include_default=True,
+                                                       platform=platform if pr.get("explicit", True) else None)
+                ostatus, obs = "ok", got
+            except errors.FlowIRVariableUnknown as e:
+                ostatus, obs = "raised", {"class": type(e).__name__, "message": str(e)[:400], "label": e.label,
+                                          "variable": e.variable_route}
+            except Exception as e:
+                ostatus, obs = "raised", {"class": type(e).__name__, "message": str(e)[:400], "label": None,
+                                          "variable": None}
+            queried = True
+            w.evaluated()
+            w.count("update_reads")
+            now = json.dumps(vlib.jsonable([status, exp]), sort_keys=True, default=str)
+            ups = since.get(key, [])
+            if key in previous and ups:
+                changed = now != previous[key]
+                w.count("update_reads_after_update")
+                if changed:
+                    w.count("update_reads_expected_changed")
+                rels = sorted(set(section_relation(u, comp_id, platform) for u in ups))
+                if len(rels) == 1:
+                    w.count("update_%s_by_%s" % ("changed" if changed else "unchanged", rels[0]))
+                for u in ups:
+                    w.distinct("U:%s:%s:%d:%s:%d" % (u.get("kind", "user"), section_relation(u, comp_id, platform),
+                                                     changed, status, platform == "default"))
+            previous[key] = now
+            since[key] = []
+            pre = "update slice: "
+            if last_update is not None:
+                pre = "update slice, after %s (step %d, active platform %r): " % (
+                    describe_step(last_update[1]), last_update[0], active)
+            witness = {"history": {"doc": hist["doc"], "user": hist.get("user"), "active": active,
+                                   "steps": hist["steps"][:k + 1]},
+                       "comp": list(comp_id), "platform": platform, "step": k,
+                       "updates_since_previous_query_of_this_pair": [describe_step(u) for u in ups],
+                       "expected": {"status": status, "value": exp if status != "ok" else None},
+                       "observed": obs if ostatus == "raised" else None}
+            if not judge(w, witness, comp_id, platform, comp_dict, status, exp, info, ostatus, obs,
+                         pre=pre, cnt="update_"):
+                ok = False
+        if not ok:
+            break               # one witness per history; later queries would repeat it
+    w.count("update_histories")
+    return ok
+
+
 def run_job(job, w):
     scratch = vlib.mkscratch("c04")
     if job["kind"] == "replay":
-        evaluate(job["case"], w, scratch)
+        if "history" in job["case"]:
+            run_history(job["case"]["history"], w, scratch)
+        else:
+            evaluate(job["case"], w, scratch)
+        return
+    if job["kind"] == "updates":
+        for index in range(job["start"], job["start"] + job["count"]):
+            run_history(gen_history(index), w, scratch)
         return
     if job["kind"] == "lattice":
         cases = lattice_cases()
@@ -392,7 +554,22 @@ def main():
         jobs.append({"kind": "lattice", "indices": list(part)})
     for start in range(0, n_docs, per):
         jobs.append({"kind": "random", "start": start, "count": min(per, n_docs - start)})
+    n_hist = N_HIST_QUICK if quick else N_HIST_THOROUGH
+    for start in range(0, n_hist, HIST_PER_JOB):
+        jobs.append({"kind": "updates", "start": start, "count": min(HIST_PER_JOB, n_hist - start)})
     vlib.fanout("checks.C04", jobs, c, timeout=900)
+    h0 = gen_history(0)
+    c.extra["update_slice"] = {
+        "what": "one live FlowIRConcrete per history (active platform may differ from the queried one): query "
+                "(component, platform) pairs, change one variable of one layer through the public setters "
+                "(set_global_variable, set_stage_variable, set_platform_global_variable, set_platform_stage_variable "
+                "for every platform section incl. the default one and platform=None, set_component_variable) or apply "
+                "the user variable file to the already queried object, query again; every query is judged against "
+                "the reference layering of the description as it stands at that moment",
+        "histories": c.counters.get("update_histories", 0),
+        "example_history_0": {"active": h0["active"], "steps": [
+            describe_step(s) if s["op"] != "read" else "query %d (component, platform) pairs" % len(s["pairs"])
+            for s in h0["steps"]]}}
     c.exhaustive = c.counters.get("lattice_configurations", 0) == n_lat
     c.extra["exhaustive_slice"] = {"what": "presence lattice of one leaf: 2 option leaves x 2^6 layers + 1 variable "
                                            "x 2^7 layers, x 3 selected platforms", "size": n_lat,
@@ -404,6 +581,16 @@ def main():
     c.floor("expect_undefined_error", 100 if quick else 1500)
     c.floor("via_user_variable_file", 300 if quick else 4000)
     c.floor("option_winner_is_falsy_value", 200)
+    k = 1 if quick else 8
+    c.floor("update_histories", n_hist)
+    c.floor("update_ops_applied", 400 * k)
+    c.floor("update_reads_after_update", 2000 * k)
+    c.floor("update_reads_expected_changed", 400 * k)
+    c.floor("update_configurations_equal_to_reference", 1500 * k)
+    for rel in ("default_section_read_on_other_platform", "section_of_read_platform", "component_own"):
+        c.floor("update_changed_by_" + rel, 40 * k)
+    c.floor("update_changed_by_user", 12 * k)
+    c.floor("update_unchanged_by_section_of_foreign_platform", 40 * k)
     for lname in ("dg", "ds", "pg", "ps", "comp", "ovr"):
         c.floor("option_winner_" + lname, 100)
     for lname in ("dg", "ds", "pg", "ps", "user", "comp", "ovr"):
